@@ -26,6 +26,8 @@ import random
 import re
 import subprocess
 import sys
+import signal
+import threading
 import typing as T
 
 if __name__ == '__main__':   # atheris child process: make `harness` importable
@@ -424,6 +426,51 @@ def diff_signature(sc_in: Scan, out: str) -> str:
     return 'roundtrip/changed'
 
 
+PARSE_CPU_BUDGET_S = 20          # for inputs up to PARSE_BUDGET_MAXLEN characters (the unchanged tree needs milliseconds)
+PARSE_BUDGET_MAXLEN = 20000
+
+
+class _NoAnswer(BaseException):
+    pass
+
+
+class _cpu_budget:
+    """CPU-time budget (ITIMER_PROF of this worker process) around one parse; inactive for very long inputs and outside
+    the main thread."""
+    def __init__(self, n: int):
+        self.on = n <= PARSE_BUDGET_MAXLEN and threading.current_thread() is threading.main_thread()
+
+    def __enter__(self) -> None:
+        if self.on:
+            def fire(_s: int, _f: T.Any) -> None:
+                raise _NoAnswer()
+            self.old = signal.signal(signal.SIGPROF, fire)
+            signal.setitimer(signal.ITIMER_PROF, PARSE_CPU_BUDGET_S)
+
+    def __exit__(self, *a: T.Any) -> None:
+        if self.on:
+            signal.setitimer(signal.ITIMER_PROF, 0)
+            signal.signal(signal.SIGPROF, self.old)
+
+
+def _confirm_no_answer(text: str) -> bool:
+    import resource
+    import subprocess
+    from harness import mesondrv
+    code = ('import sys\nsys.path.insert(0, %r)\nfrom mesonbuild import mparser\nfrom mesonbuild.mesonlib import MesonException\n'
+            't = sys.stdin.buffer.read().decode("utf-8", "surrogatepass")\n'
+            'try:\n    mparser.Parser(t, "f").parse()\nexcept MesonException:\n    pass\n' % mesondrv.REPO)
+
+    def lim() -> None:
+        resource.setrlimit(resource.RLIMIT_CPU, (3 * PARSE_CPU_BUDGET_S, 3 * PARSE_CPU_BUDGET_S + 2))
+    try:
+        p = subprocess.run([mesondrv.PY, '-B', '-c', code], input=text.encode('utf-8', 'surrogatepass'), preexec_fn=lim,
+                           stdout=subprocess.DEVNULL, stderr=subprocess.DEVNULL, timeout=40 * PARSE_CPU_BUDGET_S)
+    except subprocess.TimeoutExpired:
+        return False            # wall clock ran out (loaded machine): not a verdict
+    return p.returncode in (-signal.SIGXCPU, -signal.SIGKILL)
+
+
 def judge(text: str, known: bool = True, heavy: bool = True) -> Res:
     """The oracle.  known=True: inputs of the known-defect classes have the affected clause skipped (reason in
     res.excluded); known=False (probes, replay): everything is enforced."""
@@ -441,7 +488,19 @@ def judge(text: str, known: bool = True, heavy: bool = True) -> Res:
                 return r
     # ---- parse
     try:
-        tree = M.Parser(text, 'f').parse()
+        with _cpu_budget(len(text)):
+            tree = M.Parser(text, 'f').parse()
+    except _NoAnswer:
+        # "total": an answer (tree or located error) has to come.  CPU time, not wall clock; the budget is four orders of
+        # magnitude above what the unchanged tree needs for inputs of this size, and the verdict is only given after a fresh
+        # process with three times the budget did not answer either - otherwise the case counts as inconclusive.
+        if _confirm_no_answer(text):
+            r.fail = Failure('total/no-answer-within-cpu-budget', _case(text),
+                             f'the parser neither returned a tree nor rejected {_short(text)} ({len(text)} characters) within '
+                             f'{PARSE_CPU_BUDGET_S} s of CPU time here and {3 * PARSE_CPU_BUDGET_S} s in a fresh process')
+        else:
+            r.events.append('inconclusive:cpu-budget-not-confirmed')
+        return r
     except M.MesonException as e:
         ln, col = getattr(e, 'lineno', None), getattr(e, 'colno', None)
         if not (type(ln) is int and type(col) is int):
